@@ -25,7 +25,7 @@ func init() { register("C15", runC15) }
 func c15Shapes(g *c14Gen) []c14Req {
 	v, sum := g.valid, g.summary
 	noAsIs := strings.Split(sum, "\n")[0] + "\n1-of-8, 18.377, 101198.000, 4982.000, 2.347, 1122.881, 0, 40, Pareto front member 1 of 8\n"
-	return []c14Req{
+	fixed := []c14Req{
 		{"PUT", c14Api + "/model/actions/active", c14Csv, ""},
 		{"PUT", c14Api + "/model/actions/active", c14Csv, "SubCatchment, GullyRestoration\n"},
 		{"POST", c14Api + "/solutions", c14Csv, ""},
@@ -68,6 +68,29 @@ func c15Shapes(g *c14Gen) []c14Req {
 		{"POST", c14Api + "/solutions", c14Csv, sum},
 		{"GET", c14Api + "/model", "", ""},
 	}
+	// model parameters written with another TOML type or at a boundary (a whole number for a decimal, a string, a bool,
+	// an array, a negative or huge value): whatever the engine thinks of them, it answers -- it never panics -- and a
+	// scenario answered 200 is served by GET /model afterwards
+	for _, kv := range []string{
+		"WaterDensity = 1", "SedimentDensity = 2", "GullyCompensationFactor = 0", "GullyCompensationFactor = 1", "SuspendedSedimentProportion = 1",
+		"HillSlopeDeliveryRatio = 1", "HillSlopeDeliveryRatio = 0", "RiparianBufferVegetationProportionTarget = 1", "GullySedimentReductionTarget = 0",
+		"MaximumImplementationCost = 10_000_000", "MaximumImplementationCost = 0", "MaximumSedimentProduction = 100", "MaximumOpportunityCost = 5",
+		"MaximumTotalNitrogenProduction = 12", "MaximumImplementationCost = \"1000000\"", "MaximumImplementationCost = true",
+		"MaximumImplementationCost = [1.0]", "MaximumImplementationCost = -1.0", "MaximumImplementationCost = 1e308", "YearsOfErosion = 100.0",
+		"YearsOfErosion = 0", "YearsOfErosion = -3", "BankErosionFudgeFactor = 1", "WaterDensity = \"1.0\"", "LocalAcceleration = false",
+		"DataSourcePath = 17", "NoSuchParameter = 1", "MaximumImplementationCost = 9223372036854775807",
+	} {
+		key := kv[:strings.Index(kv, " ")]
+		text := v
+		if i := strings.Index(text, "\n"+key+" "); i >= 0 { // replace the line that sets the key
+			j := i + 1 + strings.Index(text[i+1:], "\n")
+			text = text[:i+1] + kv + text[j:]
+		} else {
+			text = strings.TrimRight(text, "\n") + "\n" + kv + "\n"
+		}
+		fixed = append(fixed, c14Req{"POST", c14Api + "/scenario", c14Toml, text}, c14Req{"GET", c14Api + "/model", "", ""})
+	}
+	return fixed
 }
 
 // ---------------------------------------------------------------------------------------------------
